@@ -92,7 +92,9 @@ Room == ~done /\ left > 0 /\ (wstack = <<>> => tok = <<>>) /\ (wstack # <<>> => 
 Hashable(t) == t.k \notin {"list", "dict", "set", "floatt", "complext"}
 (* values that compare equal in Python although their tokens differ: False == 0 == 0L == -0.0 *)
 IsZero(t) == t.k = "false" \/ (t.k \in {"int", "long"} /\ t.b = <<>>) \/ (t.k = "float" /\ t.b = FNZ)
-SameValue(a, b) == a = b \/ (Len(a) = 1 /\ Len(b) = 1 /\ IsZero(a[1]) /\ IsZero(b[1]))
+(* ... and 1.5 == (1.5-0j) *)
+IsOneAndHalf(t) == (t.k = "float" /\ t.b = F15) \/ (t.k = "complex" /\ t.b = F15 \o FNZ)
+SameValue(a, b) == a = b \/ (Len(a) = 1 /\ Len(b) = 1 /\ ((IsZero(a[1]) /\ IsZero(b[1])) \/ (IsOneAndHalf(a[1]) /\ IsOneAndHalf(b[1]))))
 (* element of a set / key of a dict: hashable, and distinct from the elements already written there *)
 OkHere(span) == /\ (Unord => \A i \in 1..Len(span) : Hashable(span[i]))
                 /\ (IF wstack = <<>> THEN TRUE
